@@ -10,6 +10,13 @@ Open Scope string_scope.
 Lemma context_keys_covered : keys_covered source_context_keys = true.
 Proof. vm_compute. reflexivity. Qed.
 
+(* the environment methods and the direct value builders in the source are the ones the model accounts for, with the
+   same URN-touching flag (a new sessionEnvironment method, or a new function returning an XValue, re-opens this) *)
+Lemma env_and_values_covered :
+  rows_eqb model_env_methods source_env_methods = true /\
+  rows_eqb model_value_builders source_value_builders = true.
+Proof. split; vm_compute; reflexivity. Qed.
+
 (* the tree the model builds has, at every transcribed builder, exactly the keys of the model's table
    ("__default__" first, then alphabetical as XObject.Properties() lists them) *)
 Definition dflt_first (ks : list string) : list string :=
